@@ -18,6 +18,10 @@ import (
 // obs : ((reqs (req (trace ...) (log ...) (esc ...)) ...) (solo (req ...) ...))
 // solo = the same request served alone, as the first request of a freshly built identical router.
 
+// how long the scheduler waits for a request before it declares the case stuck: generous at first (no false alarm on a
+// loaded machine), short once a first case was found stuck (the run is failing anyway)
+var concStuckWait = 30 * time.Second
+
 type concThread struct {
 	resume chan struct{}
 	event  chan bool // true = parked at a yield, false = finished
@@ -109,8 +113,9 @@ func concExec(c Sx) Sx {
 		}
 		select {
 		case threads[i].resume <- struct{}{}:
-		case <-time.After(30 * time.Second):
+		case <-time.After(concStuckWait):
 			stuck = true
+			concStuckWait = 500 * time.Millisecond
 			return
 		}
 		select {
@@ -118,8 +123,9 @@ func concExec(c Sx) Sx {
 			if !parked {
 				done[i] = true
 			}
-		case <-time.After(30 * time.Second):
+		case <-time.After(concStuckWait):
 			stuck = true
+			concStuckWait = 500 * time.Millisecond
 		}
 	}
 	for _, t := range xs[5].Lst() {
